@@ -450,13 +450,25 @@ def realize(case):
         except Exception as ex:
             ev["exc"] = "%s: %s" % (type(ex).__name__, str(ex)[:160])
         events.append(ev)
-    if "orbit" in fam and samples is not None and g["noff"] == 0:
+    merged = None
+    if "orbit" in fam:
+        from thejoker.data_helpers import validate_prepare_data
+        merged = validate_prepare_data(data, g["poly"], g["noff"])[0]
+        labm = np.array([g["lab"][n] for n in order])          # survey of each MERGED row (lattice surveys are time-disjoint in list order)
+
+        def with_offsets(rv, row):
+            """the curve the row denotes at the data epochs: its orbit plus, for the epochs of survey k, the row's dv0_k"""
+            rv = np.array(rv, dtype=float)
+            for k in range(1, g["noff"] + 1):
+                rv = rv + (labm == k) * float(np.atleast_1d(row["dv0_%d" % k].to_value(kms))[0])
+            return rv
+    if "orbit" in fam and samples is not None:
         ev = {"ev": "Orbit", "fam": fam["orbit"], "tag": "", "x": [[101 + k, 1] for k in range(L)], "curve": [], "lnlikeok": False, "bayesok": False,
               "bayesspecok": False, "trefsame": False}
         try:
             row0 = samples[0]
-            ev["trefsame"] = bool(samples.t_ref is not None and abs(samples.t_ref.tcb.mjd - data.t_ref.tcb.mjd) < 1e-9)
-            rv = row0.get_orbit(0).radial_velocity(data.t).to_value(kms)
+            ev["trefsame"] = bool(samples.t_ref is not None and abs(samples.t_ref.tcb.mjd - merged.t_ref.tcb.mjd) < 1e-9)
+            rv = with_offsets(row0.get_orbit(0).radial_velocity(merged.t).to_value(kms), row0)
             ev["curve"] = epochs(rmat(rv))
             x = np.array([101.0 + k for k in range(L)])
             if all(c[1] > 0 for c in ev["curve"]):
@@ -489,8 +501,10 @@ def realize(case):
                     sgn = lambda j: 1.0 if j % 2 == 0 else -1.0
                     Mx[n, 0] = sgn(g["wi"] + g["kk"][n] + g["m0i"]) + (g["e"][0] / g["e"][1]) * sgn(g["wi"])
                     Mx[n, 1] = 1.0
+                    for j in range(1, g["noff"] + 1):
+                        Mx[n, 1 + j] = 1.0 if g["lab"][n] == j else 0.0
                     for i in range(1, g["poly"]):
-                        Mx[n, 1 + i] = float(g["kk"][n] * g["ph"]) ** i
+                        Mx[n, 1 + g["noff"] + i] = float(g["kk"][n] * g["ph"]) ** i
                 Ai_s = np.diag(1.0 / lam) + Mx.T @ np.diag(1.0 / var) @ Mx
                 a_s = np.linalg.solve(Ai_s, mu / lam + Mx.T @ (y / var))
                 lnpost_s = float(lnN(x, a_s, np.linalg.inv(Ai_s)))
@@ -498,13 +512,13 @@ def realize(case):
         except Exception as ex:
             ev["exc"] = "%s: %s" % (type(ex).__name__, str(ex)[:160])
         events.append(ev)
-    if "orbit" in fam and g["noff"] == 0:
+    if "orbit" in fam:
         # a HAND-BUILT row (every column in the sample-side units of this assignment, linear parameters included)
         ev = {"ev": "Orbit", "fam": fam["orbit"], "tag": "HandBuilt", "x": [[201 + k, 1] for k in range(L)], "curve": [], "lnlikeok": False,
               "bayesok": True, "bayesspecok": True, "trefsame": True}
         try:
             from thejoker import JokerSamples
-            hb = JokerSamples(t_ref=data.t_ref, poly_trend=g["poly"], n_offsets=0)
+            hb = JokerSamples(t_ref=merged.t_ref, poly_trend=g["poly"], n_offsets=g["noff"])
             for k in ("P", "e", "omega", "M0", "s"):
                 hb[k] = target[k]
             names = ["K"] + slot_names
@@ -512,7 +526,7 @@ def realize(case):
                 power = int(nm[1:]) if nm.startswith("v") and not nm.startswith("dv") else 0
                 su = U(ua["kprior"]) if nm == "K" else U(ua["lin"][kx - 1])
                 hb[nm] = (np.array([201.0 + kx]) * kms / u.day ** power).to(su / U(ua["slope_t"]) ** power if power else su)
-            rv = hb.get_orbit(0).radial_velocity(data.t).to_value(kms)
+            rv = with_offsets(hb.get_orbit(0).radial_velocity(merged.t).to_value(kms), hb)
             ev["curve"] = epochs(rmat(rv))
             if all(c[1] > 0 for c in ev["curve"]):
                 cur = np.array([c[0] / c[1] for c in ev["curve"]])
